@@ -500,6 +500,14 @@ pub fn c03(c: &Collector, g: &mut Guard) {
                 }
             }
         }
+        // spellings around 2^8 .. 2^64 (wrapping accumulators)
+        for h in crate::props::big_numbers() {
+            for w in [format!("\x1b[{}{}", h, f), format!("\x1b[?{};{}{}", h, h, f)] {
+                for utf8 in [true, false] {
+                    c03_word(cc, &w, utf8, &mut l, "E1.digit-runs");
+                }
+            }
+        }
         // parameter lists of every length 0..=32
         for n in 0..=32usize {
             for style in 0..3 {
@@ -805,6 +813,31 @@ pub fn c19(c: &Collector, g: &mut Guard) {
             crate::judge::refine_all(c, "C19", "E1.osc-histories", t, local);
         },
     );
+    // characters whose code point merely ends in the byte of a terminator / separator / ESC
+    crate::explore::sweep(
+        c,
+        &hbase,
+        |_| {
+            let mut odd: Vec<char> = (0x80u32..0x300).filter_map(char::from_u32).collect();
+            for hi in [0x300u32, 0x2200, 0x3000, 0x4e00, 0xff00, 0x1f400, 0x10ff00] {
+                for lo in [0x07u32, 0x9c, 0x1b, 0x5c, 0x3b, 0x30, 0x32, 0x18, 0x1a, 0x9d, 0x0a] {
+                    if let Some(ch) = char::from_u32(hi + lo) {
+                        odd.push(ch);
+                    }
+                }
+            }
+            let mut v = Vec::new();
+            for ch in odd {
+                v.push(Op::Feed(vec![format!("\x1b]0;a{}b\x07x", ch)], true));
+                v.push(Op::FeedBytes(vec![format!("\x1b]2;{}\x1b\\x", ch).into_bytes()], true));
+            }
+            v
+        },
+        |c, t, local| {
+            local.count("odd_payload_chars");
+            crate::judge::refine_all(c, "C19", "E1.osc-odd-chars", t, local);
+        },
+    );
     // long titles (and long everything else around them)
     crate::explore::sweep(
         c,
@@ -832,6 +865,7 @@ pub fn c19(c: &Collector, g: &mut Guard) {
     g.need(c, "osc_feeds");
     g.need(c, "osc_histories");
     g.need(c, "long_titles");
+    g.need(c, "odd_payload_chars");
 }
 
 #[allow(clippy::too_many_arguments)]
